@@ -31,7 +31,7 @@ func init() {
 		Plan: func(tier string) Plan {
 			return Plan{Level: "exploration", NCases: pick(tier, 240, 40000), Batch: 4, CaseTimeout: 120,
 				Rule: "one case = one PRNG sequential history (C03 generator) on an engine whose partitioning is controlled: memkv/Badger behind a GetPartitions override returning 1-6 shuffled pieces whose borders are stored index/version records or well-formed internal keys of arbitrary (raw key, revision); the TiKV mock pre-split into regions at such keys. " +
-					"For 4-8 read revisions: unlimited List, Count, ListByStream over the whole interval, GetPartitions + one ListByStream per advertised piece (concatenated), and the etcd negative-revision watch are compared with the reference snapshot; every data batch must name the read revision and each stream must end with exactly one terminator, last; every 5th case ends with two whole-interval streams during which one partition worker's iterator answers a single transient error (the scanner retries that partition): a cleanly terminated stream must still carry each key once. " +
+					"For 4-8 read revisions: unlimited List, Count, ListByStream over the whole interval, GetPartitions + one ListByStream per advertised piece (concatenated), and the etcd negative-revision watch are compared with the reference snapshot; every data batch must name the read revision and each stream must end with exactly one terminator, last; every 4th case also streams all advertised pieces at the same time through the etcd Watch API (one Watch stream per piece, scans held until every stream exists): every response must carry its own stream's watch id, one eof per stream, union == snapshot; every 5th case ends with two whole-interval streams during which one partition worker's iterator answers a single transient error (the scanner retries that partition): a cleanly terminated stream must still carry each key once. " +
 					"non-trivial = >=1 border strictly inside one key's versions (between its index record and its newest version) and >=2 pieces; distinct by (engine, border vector, history outcome vector)",
 				Assumptions: []string{"TiKV regions are those of the in-process mock cluster, pre-split before the history runs"},
 				MinConcl:    pick(tier, 200, 34000)}
@@ -416,6 +416,128 @@ func runC13(c *harness.Case) {
 			return
 		}
 		c.Stat("reads_compared", 1)
+	}
+	if c.Index%4 == 1 {
+		// the advertised pieces streamed AT THE SAME TIME through the etcd Watch API, one Watch stream per piece, as a
+		// client listing in parallel does; the scans are held (a descheduled worker) until every stream has been
+		// created. Every response of a stream must carry the watch id that stream was given, each stream ends with
+		// exactly one eof, and together they hold the snapshot.
+		R := n.Committed()
+		want := s.m.Snapshot(full, fullEnd, R)
+		pr, perr := n.B.GetPartitions(harness.Ctx, &proto.ListPartitionRequest{Key: []byte(full), End: []byte(fullEnd)})
+		if perr == nil && len(pr.PartitionKeys) >= 2 {
+			pk := append([][]byte(nil), pr.PartitionKeys...)
+			sort.Slice(pk, func(i, j int) bool { return bytes.Compare(pk[i], pk[j]) < 0 })
+			type piece struct {
+				fw     *fakeWatchServer
+				cancel func()
+				done   chan error
+			}
+			var pieces []*piece
+			allCreated := make(chan struct{})
+			iw.IterFault = func(start, end []byte, k int) error {
+				<-allCreated
+				return nil
+			}
+			for i := 0; i+1 < len(pk); i++ {
+				if bytes.Equal(pk[i], pk[i+1]) {
+					continue
+				}
+				ctx, cancel := context.WithCancel(context.Background())
+				p := &piece{fw: newFakeWatchServer(ctx), cancel: cancel, done: make(chan error, 1)}
+				pieces = append(pieces, p)
+				go func(p *piece) { p.done <- srv.Watch(p.fw) }(p)
+				p.fw.in <- &etcdserverpb.WatchRequest{RequestUnion: &etcdserverpb.WatchRequest_CreateRequest{CreateRequest: &etcdserverpb.WatchCreateRequest{
+					Key: pk[i], RangeEnd: pk[i+1], StartRevision: -int64(R)}}}
+			}
+			// wait until every stream has answered "created"
+			createdBy := time.Now().Add(30 * time.Second)
+			for {
+				nCreated := 0
+				for _, p := range pieces {
+					for _, m := range p.fw.snapshot() {
+						if m.Created {
+							nCreated++
+							break
+						}
+					}
+				}
+				if nCreated == len(pieces) {
+					break
+				}
+				if time.Now().After(createdBy) {
+					close(allCreated)
+					iw.IterFault = nil
+					for _, p := range pieces {
+						p.cancel()
+					}
+					c.Inconclusive("watchdog: the range streams were not all created")
+					return
+				}
+				time.Sleep(time.Millisecond)
+			}
+			close(allCreated)
+			var all []*proto.KeyValue
+			endBy := time.Now().Add(60 * time.Second)
+			for pi, p := range pieces {
+				var id int64 = -1
+				eofs := 0
+				for eofs == 0 {
+					if time.Now().After(endBy) {
+						break
+					}
+					eofs = 0
+					for _, m := range p.fw.snapshot() {
+						if m.Header.GetRevision() == -1 {
+							eofs++
+						}
+					}
+					if eofs == 0 {
+						time.Sleep(2 * time.Millisecond)
+					}
+				}
+				time.Sleep(5 * time.Millisecond) // anything that wrongly follows the eof
+				eofs = 0
+				for _, m := range p.fw.snapshot() {
+					if m.Created {
+						id = m.WatchId
+						continue
+					}
+					if m.WatchId != id {
+						iw.IterFault = nil
+						c.Violatef("C13 range-stream-response-carries-a-foreign-watch-id what=etcd-concurrent-pieces", wit(), "piece %d of %d was created as watch %d; one of its responses (%d events, header %d) carries watch id %d", pi, len(pieces), id, len(m.Events), m.Header.GetRevision(), m.WatchId)
+						for _, q := range pieces {
+							q.cancel()
+						}
+						return
+					}
+					if m.Header.GetRevision() == -1 {
+						eofs++
+						continue
+					}
+					for _, ev := range m.Events {
+						all = append(all, &proto.KeyValue{Key: ev.Kv.Key, Value: ev.Kv.Value, Revision: uint64(ev.Kv.ModRevision)})
+					}
+				}
+				if eofs != 1 {
+					iw.IterFault = nil
+					sig := "C13 stream-terminator-count what=etcd-concurrent-pieces"
+					c.Violatef(sig, wit(), "piece %d of %d streamed concurrently through the etcd Watch API ended with %d eof messages (exactly one expected)", pi, len(pieces), eofs)
+					for _, q := range pieces {
+						q.cancel()
+					}
+					return
+				}
+			}
+			iw.IterFault = nil
+			for _, p := range pieces {
+				p.cancel()
+			}
+			if !sameSet("etcd-concurrent-pieces", R, want, all) {
+				return
+			}
+			c.Stat("pieces_streamed_concurrently_through_etcd_watch", int64(len(pieces)))
+		}
 	}
 	if c.Index%5 == 3 {
 		// one partition worker's iterator answers a single transient error at a PRNG-drawn step; the scanner retries
